@@ -360,3 +360,23 @@ def run(chk):
                 else:
                     chk.bad("R5", "typepath:" + i.key, i.file, i.line, i.what, i.expected, i.found)
     chk.guard("R5", typepath_contract)
+
+    def r6():
+        # a `where` clause assembled from several predicate lists needs a comma between them (a list without trailing comma followed by
+        # another predicate is not a valid where clause)
+        from ..src import walk as _walk
+        chk.rule("R6", "where-clause templates never juxtapose two interpolated predicate lists without a separator", floor=1)
+        n = 0
+        for fi in chk.repo.fns(EXPAND):
+            k = 0
+            for node in _walk(fi.body):
+                if node["k"] == "Macro" and node["last"] == "quote" and re.search(r"\bwhere\b", node.get("src", "")):
+                    src = re.sub(r"\s+", " ", node["src"])
+                    n += 1
+                    key = f"{fi.qual}:where-template#{k}"
+                    k += 1
+                    juxt = re.search(r"\bwhere\s+#\s*\w+\s+#\s*\w+", src) is not None
+                    chk.shape("R6", key, not juxt, juxt, EXPAND, node["line"], what="two predicate lists are spliced after `where` with nothing between them: unless the first ends in a comma the impl header does not parse", found=src[:100])
+        if n == 0:
+            chk.inconc("R6", "no quote! template containing `where` found in expand.rs (1 confirmed by hand)")
+    chk.guard("R6", r6)
